@@ -38,6 +38,20 @@ From TP Require PMonSound13_C13 PObs PMon.
 Theorem mon_sound : forall c tr, clean (run c tr) -> taint_self (run c tr) = false -> PMon.ok_C13 c (PObs.observe c tr) = true.
 Proof. exact PMonSound13_C13.mon_C13_sound. Qed.
 
+(** EVENTUALLY: flush() returns.  In the final state of every maximal cooperative run (no further
+    request or cancellation; every waiting worker may finish, every slow callback complete) from
+    any reachable state - whatever the pool size, also 0 - every flush() call has returned. *)
+From TP Require PLive_def PLiveDrv_stuck PLiveDrv.
+Theorem C13_flush_eventually_returns : forall c tr0 d x re,
+  clean (run c tr0) ->
+  get_d (run c tr0) d = Some x -> d_kind x = DFlush re ->
+  forall tr, PLive_def.coop_run (run c tr0) tr ->
+  (forall l, ~ PLive_def.coop_run (run c tr0) (tr ++ [l])) ->
+  exists x', get_d (run c (tr0 ++ tr)) d = Some x' /\ d_kind x' = DFlush re /\
+             PLiveDrv_stuck.drv_done x'.
+Proof. exact PLiveDrv.C13_flush_eventually_returns. Qed.
+
 Print Assumptions C13_step.
 Print Assumptions C13_trace.
 Print Assumptions mon_sound.
+Print Assumptions C13_flush_eventually_returns.
